@@ -217,26 +217,47 @@ def imported_grammar_scenario():
     import shutil
     import tempfile
     from textx import metamodel_from_file
-    files = {'main.tx': "import a\nModel: xs+=A ys*=Y;\nY: 'y' name=ID a=A?;",
-             'a.tx': "import b\nA: 'a' name=ID b=B;",
-             'b.tx': "B: 'b' name=ID cs+=C;\nC: 'c' name=ID;"}
-    tmp = tempfile.mkdtemp(prefix='c13g_')
-    try:
-        for fn, t in files.items():
-            with open(os.path.join(tmp, fn), 'w') as f:
-                f.write(t)
-        mm = metamodel_from_file(os.path.join(tmp, 'main.tx'))
-        log = []
-        mm.register_obj_processors({r: (lambda o, r=r: log.append((r, getattr(o, 'name', None))))
-                                    for r in ('Model', 'A', 'B', 'C', 'Y')})
-        mm.model_from_str('a a1 b b1 c c1 c c2 a a2 b b2 c c3 y y1 a a3 b b3 c c4')
-        exp = [('C', 'c1'), ('C', 'c2'), ('B', 'b1'), ('A', 'a1'), ('C', 'c3'), ('B', 'b2'), ('A', 'a2'),
-               ('C', 'c4'), ('B', 'b3'), ('A', 'a3'), ('Y', 'y1'), ('Model', None)]
-        if log != exp:
-            return ['grammar in three files (main imports a imports b): processor calls %s, expected %s' % (log, exp)]
-        return []
-    finally:
-        shutil.rmtree(tmp, ignore_errors=True)
+    layouts = [
+        ('main imports a imports b',
+         {'main.tx': "import a\nModel: xs+=A ys*=Y;\nY: 'y' name=ID a=A?;",
+          'a.tx': "import b\nA: 'a' name=ID b=B;",
+          'b.tx': "B: 'b' name=ID cs+=C;\nC: 'c' name=ID;"}),
+        # a grammar file named like the package directory next to it (main imports a, a imports a.b)
+        ('main imports a imports a.b (a.tx next to the directory a/)',
+         {'main.tx': "import a\nModel: xs+=A ys*=Y;\nY: 'y' name=ID a=A?;",
+          'a.tx': "import a.b\nA: 'a' name=ID b=B;",
+          'a/b.tx': "B: 'b' name=ID cs+=C;\nC: 'c' name=ID;"}),
+    ]
+    text = 'a a1 b b1 c c1 c c2 a a2 b b2 c c3 y y1 a a3 b b3 c c4'
+    exp = [('C', 'c1'), ('C', 'c2'), ('B', 'b1'), ('A', 'a1'), ('C', 'c3'), ('B', 'b2'), ('A', 'a2'),
+           ('C', 'c4'), ('B', 'b3'), ('A', 'a3'), ('Y', 'y1'), ('Model', None)]
+    # the root object itself is of a rule of a transitively imported grammar
+    layouts.append(('root rule reduces to a rule of a transitively imported grammar',
+                    {'main.tx': "import mid\nRoot: Wrapped;", 'mid.tx': "import leaf\nWrapped: Thing;",
+                     'leaf.tx': "Thing: 't' name=ID parts+=Part;\nPart: 'p' name=ID;"}))
+    out = []
+    for label, files in layouts:
+        tmp = tempfile.mkdtemp(prefix='c13g_')
+        try:
+            for fn, t in files.items():
+                os.makedirs(os.path.dirname(os.path.join(tmp, fn)), exist_ok=True)
+                with open(os.path.join(tmp, fn), 'w') as f:
+                    f.write(t)
+            mm = metamodel_from_file(os.path.join(tmp, 'main.tx'))
+            log = []
+            rules = ('Thing', 'Part') if 'leaf.tx' in files else ('Model', 'A', 'B', 'C', 'Y')
+            mm.register_obj_processors({r: (lambda o, r=r: log.append((r, getattr(o, 'name', None)))) for r in rules})
+            t_, e_ = (('t t1 p p1 p p2', [('Part', 'p1'), ('Part', 'p2'), ('Thing', 't1')]) if 'leaf.tx' in files
+                      else (text, exp))
+            try:
+                mm.model_from_str(t_)
+            except Exception as e:  # noqa
+                log = '%s: %s' % (type(e).__name__, e)
+            if log != e_:
+                out.append('grammar in several files (%s): processor calls %s, expected %s' % (label, log, e_))
+        finally:
+            shutil.rmtree(tmp, ignore_errors=True)
+    return out
 
 
 def reload_after_failing_processor(global_repo):
